@@ -404,7 +404,31 @@ def make():
         _xofields = {"q": xo.Float64[:]}
         _depends_on = [Rng._XoStruct]  # ... and as the struct class
 
-    return dict(Rng=Rng, Kick=Kick, Line=Line, Mon=Mon)
+    # a union whose member list is a LIST object and which declares a dependency of its own; a struct holding it
+    class Tab(xo.Struct):
+        t = xo.Float64[:]
+
+    class ShA(xo.Struct):
+        x = xo.Float64
+
+    class ShB(xo.Struct):
+        y = xo.Int64
+
+    class Shape(xo.UnionRef):
+        _reftypes = [ShA, ShB]
+        _depends_on = [Tab]
+
+    class Scene(xo.Struct):
+        s = Shape
+        n = xo.Int32
+
+    # a plain struct that declares a hybrid class as its dependency
+    class Probe(xo.Struct):
+        p = xo.Float64
+        _depends_on = [Rng]
+        _extra_c_sources = ["/*gpufun*/ int64_t Probe_seed(RngData r){ return RngData_get_s(r); }"]
+
+    return dict(Rng=Rng, Kick=Kick, Line=Line, Mon=Mon, Tab=Tab, Shape=Shape, Scene=Scene, Probe=Probe)
 
 
 def xs(c):
@@ -425,8 +449,16 @@ def judge(roots):
         st += [xs(d) for d in (list(c._get_inner_types()) if hasattr(c, "_get_inner_types") else [])]
         st += [xs(d) for d in getattr(c, "_depends_on", [])]
     need = [c for c in clos if hasattr(c, "_gen_c_api")]
-    res = sort_classes(list(roots))
+    inner0 = [(c, list(c._get_inner_types()) if hasattr(c, "_get_inner_types") else [], list(getattr(c, "_depends_on", []))) for c in clos]
+    first = sort_classes(list(roots))
+    res = sort_classes(list(roots))  # sorting is repeatable: a second build sees the same classes (M10-C14)
     names = [c.__name__ for c in res]
+    if [id(c) for c in first] != [id(c) for c in res]:
+        return f"sorting {[r.__name__ for r in roots]} twice gives {[c.__name__ for c in first]} and then {names}"
+    for c, inn, dep in inner0:
+        now = list(c._get_inner_types()) if hasattr(c, "_get_inner_types") else []
+        if [id(x) for x in now] != [id(x) for x in inn] or [id(x) for x in getattr(c, "_depends_on", [])] != [id(x) for x in dep]:
+            return f"sort_classes changed the inner types / declared dependencies of {c.__name__}: {[x.__name__ for x in inn]} -> {[x.__name__ for x in now]}"
     for c in need:
         k = sum(1 for r in res if r is c)
         if k != 1:
@@ -436,15 +468,16 @@ def judge(roots):
         for d in [xs(d) for d in (list(c._get_inner_types()) if hasattr(c, "_get_inner_types") else []) + list(getattr(c, "_depends_on", []))]:
             if hasattr(d, "_gen_c_api") and id(d) in pos and not pos[id(d)] < pos[id(c)]:
                 return f"{d.__name__} is emitted after its dependant {c.__name__}"
-    try:
-        xo.ContextCpu().add_kernels(kernels={}, extra_classes=list(roots))
-    except Exception as ex:  # noqa
-        return f"the source emitted for {[r.__name__ for r in roots]} does not build: {type(ex).__name__}: {str(ex)[:120]}"
+    for attempt in ("first", "second"):
+        try:
+            xo.ContextCpu().add_kernels(kernels={}, extra_classes=list(roots))
+        except Exception as ex:  # noqa
+            return f"the source emitted for {[r.__name__ for r in roots]} does not build ({attempt} build): {type(ex).__name__}: {str(ex)[:120]}"
     return None
 '''
 exec(HYB_SRC)
 
-HYB_ROOTS = [("Kick",), ("Line",), ("Mon",), ("Line", "Mon"), ("Rng", "Kick"), ("Mon", "Line", "Rng")]
+HYB_ROOTS = [("Kick",), ("Line",), ("Mon",), ("Line", "Mon"), ("Rng", "Kick"), ("Mon", "Line", "Rng"), ("Scene",), ("Shape",), ("Scene", "Line"), ("Probe",), ("Probe", "Scene")]
 
 REPLAY_HYB = '''#!/usr/bin/env python
 """replay: hybrid classes with declared dependencies against sort_classes + cffi build (exit 1 = violated)"""
@@ -462,7 +495,7 @@ print("property holds on this case"); sys.exit(0)
 def _hyb_case(arg):
     names, as_struct = arg
     cl = make()
-    roots = [cl[n]._XoStruct if as_struct else cl[n] for n in names]
+    roots = [getattr(cl[n], "_XoStruct", cl[n]) if as_struct else cl[n] for n in names]
     try:
         return judge(roots)
     except Exception as ex:  # noqa
@@ -558,7 +591,7 @@ def main(pid):
     hres = run_parallel(_hyb_case, hjobs)
     for (names, as_struct), msg in zip(hjobs, hres):
         if msg:
-            sel = "cl[n]._XoStruct" if as_struct else "cl[n]"
+            sel = "getattr(cl[n], \"_XoStruct\", cl[n])" if as_struct else "cl[n]"
             rep.candidate("sort-hybrid:" + ("struct-roots" if as_struct else "hybrid-roots") + ":" + msg.split(" needed by")[0][:50], f"hybrid classes {names} given as {'struct' if as_struct else 'hybrid'} classes: {msg} (concrete observation)", REPLAY_HYB.format(src=HYB_SRC, sel=sel, names=tuple(names)))
     rep.validated += len(hjobs)
     rep.extra["hybrid_dependency_cases"] = len(hjobs)
